@@ -446,8 +446,9 @@ fn thread_op(k: usize, guards: &mut Vec<G>, w: &[&str]) -> Option<String> {
                 },
             }
         }
-        ["elapsed", v] => match with_span(v, |s| s.elapsed().is_some()) {
-            Some(b) => format!("elapsed {}", b as u8),
+        ["elapsed", v] => match with_span(v, |s| s.elapsed()) {
+            Some(Some(d)) => format!("elapsed 1~{}", d.as_nanos()),
+            Some(None) => "elapsed 0".into(),
             None => "bad-op unknown span".into(),
         },
         ["cancel", v] => match with_span(v, |s| s.cancel()) {
@@ -777,12 +778,15 @@ fn run_case() {
         }
     };
 
+    let times = std::env::var("FH_TIMES").map(|v| v == "1").unwrap_or(false);
+    let mono0 = std::time::Instant::now();
     for line in stdin.lock().lines() {
         let line = line.unwrap();
         let w: Vec<&str> = line.split_whitespace().collect();
         if w.is_empty() {
             continue;
         }
+        let t_before = (mono0.elapsed().as_nanos(), std::time::SystemTime::now().duration_since(std::time::UNIX_EPOCH).unwrap().as_nanos());
         let Ok(k) = w[0].parse::<usize>() else {
             emit("bad-op parse".into());
             continue;
@@ -943,6 +947,12 @@ fn run_case() {
             }
         };
         let dead = res == "timeout";
+        let res = if times {
+            let t_after = (mono0.elapsed().as_nanos(), std::time::SystemTime::now().duration_since(std::time::UNIX_EPOCH).unwrap().as_nanos());
+            format!("{} @{}:{}:{}:{}", res, t_before.0, t_after.0, t_before.1, t_after.1)
+        } else {
+            res
+        };
         emit(res);
         if dead {
             break;
